@@ -245,7 +245,7 @@ for side in ('u', 'p'):
         f'{side}_neg': H(f'{side}_neg', [('offset', Z)], _MOVE_ENV, 'bool'),
         f'{side}_msg': H(None, [], {}, None),
     })
-kernel('G3_move', 'bisturi/structural_fields.py', [('Move', 'unpack'), ('Move', 'pack')], 'MoveGen', _move_holes)
+kernel('G3_move', 'bisturi/structural_fields.py', [('Move', '__init__'), ('Move', 'init'), ('Move', 'unpack'), ('Move', 'pack')], 'MoveGen', _move_holes)
 
 _SEQ_ENV = {'aligned_to': 'a', 'offset': 'offset', 'fragments.current_offset': 'offset', 'count_elements': 'count'}
 kernel('G4_seq', 'bisturi/structural_fields.py', [('Sequence', 'unpack'), ('Sequence', 'pack')], 'SeqGen', {
@@ -331,6 +331,9 @@ kernel('G12d_pattern_matching', 'bisturi/pattern_matching.py',
        [('Any', '__init__'), ('Any', '__eq__'), ('Any', '__ne__'), ('Any', 'eq_for_any'), ('Any', 'ne_for_any'), ('Any', 'eq_for_regexp'),
         ('Any', 'ne_for_regexp'), (None, 'anything_like'), (None, 'filter_like'), (None, 'filter')], 'PatternMatchingGen', {},
        extra='Definition pattern_matching_template_matched : bool := true.')
+
+kernel('G15_init', 'bisturi/field.py', [('Field', 'init'), ('Int', 'init'), ('Data', 'init'), ('Ref', 'init'), ('Ref', '_lets_find_a_nice_default'), ('Bits', 'init'), ('Em', 'init')], 'InitGen', {}, extra='Definition init_template_matched : bool := true.')
+kernel('G15b_init_structural', 'bisturi/structural_fields.py', [('Sequence', 'init'), ('Optional', 'init')], 'InitStructGen', {}, extra='Definition init_struct_template_matched : bool := true.')
 
 
 def translate_kernel(kid):
